@@ -129,14 +129,62 @@ def c43(c):
                       'reverse reads from beyond top+1 are compared with Node.History only (outside the reference, see MemBroker.tla)']
 
 
-CHECKS = {'C09': c09, 'C43': c43}
+def c36(c):
+    quick = c.tier == 'quick'
+    c._specdir('Connect')
+    r, binp = _par(lambda: c.tlc_exhaustive('Connect', 'ConnTimers', 'timers_quick.cfg' if quick else 'timers_thorough.cfg', workers=4, timeout=3000),
+                   lambda: c.go_build('connect'))
+    c.log('TLC exhaustive: %d distinct / %d generated, depth %d' % (r['distinct'], r['states'], r['depth']))
+    probe = c.harness(binp, 'c36probe', {}, timeout=120)
+    rearm = bool(probe['extra'].get('server_zero_rearms'))
+    c.cov['server_zero_rearms'] = rearm
+    nb = 400 if quick else 3000
+    s = c.tlc('Connect', 'ConnTimersSim', 'timers_sim_rearm.cfg' if rearm else 'timers_sim.cfg', simulate=nb, depth=20, timeout=1500)
+    if not s['ok']:
+        raise vf.Inconclusive('simulation failed: %s\n%s' % (s['error'], s['out'][-3000:]))
+    keep = ('step', 'out', 'cb', 'status', 'closing', 'tmr')
+    behs = []
+    for b in c.behaviours(s):
+        bb = [{k: x[k] for k in keep} for x in b]
+        bb[0]['cfg'] = b[0]['cfg']
+        behs.append(bb)
+    c.log('TLC simulate: %d behaviours (Client.Refresh(0) re-arms: %s)' % (len(behs), rearm))
+    res = c.harness(binp, 'c36', {'behaviours': behs}, timeout=2400)
+    c.absorb(res)
+    discarded = res['counters'].get('discarded_for_timing', 0)
+    c.cov['traces_validated_against_impl'] = res['completed']
+    c.cov['evaluations'] = res['executed']
+    c.cov['distinct_nontrivial'] = res['nontrivial']
+    c.cov['discarded_for_timing'] = discarded
+    c.cov['samples'] = res['samples'][:2]
+    c.log('replay: %d executed, %d completed, %d non-trivial, %d discarded for timing' % (res['executed'], res['completed'], res['nontrivial'], discarded))
+    if discarded * 4 > len(behs):
+        raise vf.Inconclusive('%d of %d behaviours could not be placed inside their wall-clock seconds (machine too loaded)' % (discarded, len(behs)))
+    c.cov['rule'] = ('behaviours of ConnTimers.tla by TLC -simulate over 12 configurations (ping/pong, connection expiry with client- or server-side refresh, both multiplexed, '
+                     'subscription expiry with client- or server-side refresh), each replayed on its own node: timers fired through a harness TimerScheduler, one model Tick = one real second; '
+                     'non-trivial = completed behaviour with a timer firing or a refresh, distinct by (cfg, step list)')
+    c.assumptions += ['JSON protocol, one connection and one channel per behaviour',
+                      'a timer may fire late but the expire timer never early; behaviours in which two deadlines coincide are not continued (which one is armed depends on sub-millisecond jitter)',
+                      'actions run within +-0.35 s of the middle of their wall-clock second, otherwise the behaviour is repeated (3 attempts) or discarded',
+                      'Client.Refresh(ExpireAt=0) is modelled as the tree under test implements it (probed): it does or does not clear the armed expiry deadline']
+
+
+CHECKS = {'C09': c09, 'C43': c43, 'C36': c36}
 
 _note9 = ('Bounds: exhaustive design check 2 commands (quick) / 3 (thorough) with arbitrarily delayed close goroutines, 1 async callback, 2 timer firings, 1 environment close; '
           'exhaustive replay: all sequences of <= 3 commands (alphabet of 56 symbols x id modes, 6 environment configurations) with <= 1 async callback; simulated replay: <= 7 commands, '
           '<= 2 async callbacks, <= 4 timer firings. Trusted: TLC, lib/tlaparse.py, harness projection/monitor code, harness TimerScheduler.')
 _note43 = ('Bounds: streams of 0..3 (quick) / 0..6 (thorough) publications, limits {-1,0,1,2,5} / {-1,0,1,2,3,5,7}, since none or offset 0..top+1 with 3 epochs, both directions, '
            'HistoryMaxPublicationLimit {0,2} / {0,1,2,4}; presence with <= 3 / 4 subscribers. Exhaustive within the bounds. Trusted: TLC, lib/tlaparse.py, harness comparison code.')
+_note36 = ('Bounds: exhaustive 4 s / 5 actions (quick), 6 s / 7 actions (thorough) over 12 configurations; replay 400 / 3000 simulated behaviours of <= 5 s and <= 8 actions. '
+           'Ping 1 s, pong timeout 0.4 s, grace delays 1 s, expiries 1-2 s, refresh extends by 2 s. Trusted: TLC, lib/tlaparse.py, harness TimerScheduler and monitor code, wall clock.')
 META = {
+    'C36': dict(level='model_checking',
+                text='ConnTimers.tla transcribes the timer layer (stale timer, scheduleOnConnectTimers, the single multiplexed timer with its tie order, sendPing/checkPong with the lastPing sign, '
+                     'expire/checkExpired, handleRefresh, Client.Refresh, the presence tick\'s subscription expiry with client- and server-side refresh, handleSubRefresh) and states C36 as action '
+                     'properties against reference deadlines that only the environment updates; TLC checks them exhaustively; simulated behaviours are replayed on real clients with a harness '
+                     'TimerScheduler (ping/pong/stale/presence in virtual time, expiry in real seconds) and the same properties are evaluated on what the real connection did.',
+                note=_note36, technique='TLA+ spec + TLC exhaustive (action properties); behaviour replay with a virtual TimerScheduler and a 1 s tick clock; observable-only monitors'),
     'C43': dict(level='model_checking',
                 text='ConnHistory.tla transcribes the limit clamp of handleHistory and the request checks of Node.history, states the property independently (entitled limit, bound, '
                      'filter and order of the returned offsets, bad request for reverse since offset 0) and TLC checks it on every request of the bounded argument space; every row is then '
